@@ -764,56 +764,138 @@ func (tr *fnTrans) termUnder(v ssa.Value, ov map[ssa.Value]Term, b *ssa.BasicBlo
 	return t, ok
 }
 
+// instrMods adds the components one instruction may write to mods; it reports true when that cannot be bounded
+// (a call with no contract whose body is not available, a go statement).
+func (tr *fnTrans) instrMods(ins ssa.Instruction, mods map[string]bool, seen map[*ssa.Function]bool) bool {
+	switch x := ins.(type) {
+	case *ssa.Store:
+		if seen != nil && addrRootIsOwnAlloc(x.Addr) {
+			// inside an inferred callee: a store into an object the callee allocated itself cannot change any
+			// object that existed before the call
+			break
+		}
+		tr.compsOfLoc(tr.locShape(x.Addr), mods)
+	case *ssa.MapUpdate:
+		for _, cn := range tr.mapComps(x.Map.Type()) {
+			mods[cn] = true
+		}
+	case *ssa.Send:
+		mods["G:sent"] = true
+		mods["G:senttime"] = true
+		mods["G:evclock"] = true
+		mods["G:sentlog_"+tr.c.sortOf(tr.chanElem(x.Chan.Type()))] = true
+	case *ssa.Select:
+		mods["G:sent"] = true
+		mods["G:recvd"] = true
+		mods["G:senttime"] = true
+		mods["G:evclock"] = true
+		for _, st := range x.States {
+			mods["G:sentlog_"+tr.c.sortOf(tr.chanElem(st.Chan.Type()))] = true
+			mods["G:recvlog_"+tr.c.sortOf(tr.chanElem(st.Chan.Type()))] = true
+		}
+	case *ssa.UnOp:
+		if x.Op == token.ARROW {
+			mods["G:recvd"] = true
+			mods["G:recvlog_"+tr.c.sortOf(tr.chanElem(x.X.Type()))] = true
+		}
+	case *ssa.MakeChan:
+		for _, g := range []string{"G:chcap", "G:sent", "G:recvd", "G:closed"} {
+			mods[g] = true
+		}
+	case *ssa.MakeMap:
+		for _, cn := range tr.mapComps(x.Type()) {
+			mods[cn] = true
+		}
+	case *ssa.Alloc, *ssa.MakeSlice, *ssa.MakeClosure:
+	case ssa.CallInstruction:
+		if _, isGo := ins.(*ssa.Go); isGo {
+			return seen != nil // inside an inferred callee a go statement is unbounded; in a loop it is handled elsewhere
+		}
+		cm, all := tr.calleeMods(x.Common())
+		if all {
+			// no contract: a module function whose body is available has the write set of its body
+			if callee := x.Common().StaticCallee(); callee != nil && !x.Common().IsInvoke() {
+				im, iall := tr.inferredMods(callee, seen)
+				if !iall {
+					for m := range im {
+						mods[m] = true
+					}
+					return false
+				}
+			}
+			return true
+		}
+		for _, m := range cm {
+			mods[m] = true
+		}
+	}
+	return false
+}
+
+// addrRootIsOwnAlloc: the address is (a field / element of) an allocation made by the same function.
+func addrRootIsOwnAlloc(v ssa.Value) bool {
+	for {
+		switch x := v.(type) {
+		case *ssa.Alloc:
+			return true
+		case *ssa.FieldAddr:
+			v = x.X
+		case *ssa.IndexAddr:
+			// element of an array behind a pointer: follow the pointer only when it is the allocation itself
+			v = x.X
+		default:
+			return false
+		}
+	}
+}
+
+// inferredMods over-approximates what a function without a contract may write: the union over its
+// instructions, following calls to other uncontracted functions of the module.  Locals of the callee are its own.
+func (tr *fnTrans) inferredMods(fn *ssa.Function, seen map[*ssa.Function]bool) (map[string]bool, bool) {
+	if fn == nil || len(fn.Blocks) == 0 || fn.Pkg == nil || !strings.HasPrefix(fn.Pkg.Pkg.Path(), "github.com/vimeo/dials") {
+		return nil, true
+	}
+	if seen == nil {
+		seen = map[*ssa.Function]bool{}
+	}
+	if seen[fn] {
+		return map[string]bool{}, false
+	}
+	seen[fn] = true
+	mods := map[string]bool{}
+	for _, b := range fn.Blocks {
+		for _, ins := range b.Instrs {
+			if tr.instrMods(ins, mods, seen) {
+				return nil, true
+			}
+		}
+	}
+	for _, a := range fn.AnonFuncs {
+		am, all := tr.inferredMods(a, seen)
+		if all {
+			return nil, true
+		}
+		for m := range am {
+			mods[m] = true
+		}
+	}
+	for m := range mods {
+		if strings.HasPrefix(m, "L:") {
+			delete(mods, m)
+		}
+	}
+	return mods, false
+}
+
 // loopMods computes the components written inside the loop.
 func (tr *fnTrans) loopMods(li *loopInfo) {
 	for b := range li.body {
 		for _, ins := range b.Instrs {
-			switch x := ins.(type) {
-			case *ssa.Store:
-				tr.compsOfLoc(tr.locShape(x.Addr), li.modComps)
-			case *ssa.MapUpdate:
-				for _, cn := range tr.mapComps(x.Map.Type()) {
-					li.modComps[cn] = true
-				}
-			case *ssa.Send:
-				li.modComps["G:sent"] = true
-				li.modComps["G:senttime"] = true
-				li.modComps["G:evclock"] = true
-				li.modComps["G:sentlog_"+tr.c.sortOf(tr.chanElem(x.Chan.Type()))] = true
-			case *ssa.Select:
-				li.modComps["G:sent"] = true
-				li.modComps["G:recvd"] = true
-				li.modComps["G:senttime"] = true
-				li.modComps["G:evclock"] = true
-				for _, st := range x.States {
-					li.modComps["G:sentlog_"+tr.c.sortOf(tr.chanElem(st.Chan.Type()))] = true
-					li.modComps["G:recvlog_"+tr.c.sortOf(tr.chanElem(st.Chan.Type()))] = true
-				}
-			case *ssa.UnOp:
-				if x.Op == token.ARROW {
-					li.modComps["G:recvd"] = true
-					li.modComps["G:recvlog_"+tr.c.sortOf(tr.chanElem(x.X.Type()))] = true
-				}
-			case *ssa.MakeChan:
-				for _, g := range []string{"G:chcap", "G:sent", "G:recvd", "G:closed"} {
-					li.modComps[g] = true
-				}
-			case *ssa.MakeMap:
-				for _, cn := range tr.mapComps(x.Type()) {
-					li.modComps[cn] = true
-				}
-			case *ssa.Alloc, *ssa.MakeSlice, *ssa.MakeClosure:
-			case ssa.CallInstruction:
-				if _, isGo := ins.(*ssa.Go); isGo {
-					continue
-				}
-				mods, all := tr.calleeMods(x.Common())
-				if all {
-					li.modAll = true
-				}
-				for _, m := range mods {
-					li.modComps[m] = true
-				}
+			if _, isGo := ins.(*ssa.Go); isGo {
+				continue
+			}
+			if tr.instrMods(ins, li.modComps, nil) {
+				li.modAll = true
 			}
 		}
 	}
